@@ -38,6 +38,7 @@ def check(ctx):
     r17_1(ctx)
     r17_2(ctx)
     r17_3(ctx)
+    r17_5(ctx)
     # R17.4
     run = c03.index_run(ctx, "R17.4")
     info = c03.r03_1(ctx, run)
@@ -332,6 +333,35 @@ def in_typeerror_try(f, node):
 
 def passes_to_parser(node, var):
     return any(isinstance(c, ast.Call) and isinstance(c.func, ast.Attribute) and c.func.attr == "parse_gaf_line" for c in ast.walk(node))
+
+
+def r17_5(ctx):
+    """Records are delimited by the handle, not by hand: every reader of a GAF handle takes whole lines from it (iteration
+    or readline()); a raw read(n) followed by a manual split re-implements line framing (and loses / glues the record at a
+    chunk boundary that falls on a newline)."""
+    repo = ctx.repo
+    n = 0
+    for f in repo.all_funcs():
+        if f.module.name not in ("gaftools.gaf", "gaftools.cli.index", "gaftools.cli.sort", "gaftools.cli.view", "gaftools.conversion", "gaftools.cli.stat", "gaftools.cli.realign", "gaftools.cli.phase"):
+            continue
+        handles = set()
+        for s_ in c03.opener_shape(f):
+            handles.add(norm(s_[1].targets[0]))
+        if f.cls == "GAF":
+            handles.add("self.file")
+        for c in walk_own(f.node):
+            if isinstance(c, ast.Attribute) and c.attr == "file" and isinstance(c.value, ast.Name) and repo.local_class_of(f, c.value.id) == ("gaftools.gaf", "GAF"):
+                handles.add(norm(c))
+        for c in walk_own(f.node):
+            if isinstance(c, ast.Call) and isinstance(c.func, ast.Attribute) and norm(c.func.value) in handles:
+                n += 1
+                if c.func.attr in ("read", "read1", "readinto", "readlines", "peek"):
+                    ctx.violated("R17.5", f.where(c), f"`{norm(c)[:60]}` takes raw chunks from the GAF handle: record boundaries are then recomputed by hand instead of coming from the handle's own line framing", key_of(f, f"raw-read:{norm(c)[:60]}"))
+            if isinstance(c, ast.For) and norm(c.iter) in handles:
+                n += 1
+    ctx.require_count("R17.5", n, 8, "gaftools/", "operations on GAF handles")
+    if not any(i.rule == "R17.5" and i.verdict == "violated" for i in ctx.instances):
+        ctx.holds("R17.5", "gaftools/", f"all {n} operations on GAF handles take whole lines (iteration / readline) or position the handle (tell / seek / close)")
 
 
 def r17_3(ctx):
